@@ -191,6 +191,67 @@ theorem dRAhalf_ge_delta (dec δ : ℝ) (hδ : 0 < δ) (hδ' : δ ≤ 2 * Real.p
     have := cosfact_le_one dec δ
     nlinarith
 
+theorem dRAhalfCap_twoPi (dec δ : ℝ) : dRAhalfCap (twoPi : ℝ) dec δ = dRAhalf dec δ := rfl
+
+theorem dRAhalfCap_eq (cap dec δ : ℝ) :
+    dRAhalfCap cap dec δ = if cosfact dec δ = 0 then cap else min cap |δ / cosfact dec δ| := by
+  unfold dRAhalfCap
+  by_cases hc : cosfact dec δ = 0
+  · simp [hc]
+  · rcases lt_or_gt_of_ne hc with h | h
+    · simp [h, hc]
+    · simp [h, hc, not_lt.mpr (le_of_lt h)]
+
+/-- **the cap is irrelevant above π**: a distance `d ≤ π` (every RA distance on the circle is) is
+below the half width for one cap `> π` iff it is for any other -/
+theorem cap_irrelevant (cap cap' dec δ d : ℝ) (hc : Real.pi < cap) (hc' : Real.pi < cap') (hd : d ≤ Real.pi) :
+    d < dRAhalfCap cap dec δ ↔ d < dRAhalfCap cap' dec δ := by
+  rw [dRAhalfCap_eq, dRAhalfCap_eq]
+  split
+  · exact ⟨fun _ => by linarith, fun _ => by linarith⟩
+  · simp only [lt_min_iff]
+    exact ⟨fun h => ⟨by linarith, h.2⟩, fun h => ⟨by linarith, h.2⟩⟩
+
+theorem raDistBox_le_pi (s e : ℝ) : raDistBox s e ≤ Real.pi := by
+  rw [raDistBox_eq]; exact circDist_le_pi _
+
+theorem raDistMod_le_pi (s e : ℝ) (h : |e - s| ≤ 2 * Real.pi) : raDistMod s e ≤ Real.pi := by
+  rw [raDistMod_eq s e h]; exact circDist_le_pi _
+
+theorem inRABandCap_eq (cap s dec δ e : ℝ) (hc : Real.pi < cap) (h : |e - s| ≤ 2 * Real.pi) :
+    inRABandCap cap s dec δ e = inRABand s dec δ e := by
+  have h2 : Real.pi < (twoPi : ℝ) := by rw [twoPi_real]; have := Real.pi_pos; linarith
+  unfold inRABandCap inRABand
+  rw [← dRAhalfCap_twoPi]
+  exact decide_eq_decide.mpr (cap_irrelevant cap twoPi dec δ _ hc h2 (raDistMod_le_pi s e h))
+
+theorem inBoxRaCap_eq (cap s dec δ e : ℝ) (hc : Real.pi < cap) :
+    inBoxRaCap cap s dec δ e = decide (raDistBox s e < dRAhalf dec δ) := by
+  have h2 : Real.pi < (twoPi : ℝ) := by rw [twoPi_real]; have := Real.pi_pos; linarith
+  unfold inBoxRaCap
+  rw [← dRAhalfCap_twoPi]
+  exact decide_eq_decide.mpr (cap_irrelevant cap twoPi dec δ _ hc h2 (raDistBox_le_pi s e))
+
+/-- with the cap at `π` itself the event on the opposite meridian of a source whose band touches a
+pole is lost (its distance is exactly `π`, the comparison is strict) -/
+theorem cap_pi_loses_antipode (s dec δ : ℝ) (hδ : 0 < δ) (hdec : -(Real.pi / 2) ≤ dec ∧ dec ≤ Real.pi / 2)
+    (hp : Real.pi / 2 ≤ |dec| + δ) :
+    inBoxRaCap Real.pi s dec δ (s + Real.pi) = false ∧
+    decide (raDistBox s (s + Real.pi) < dRAhalf dec δ) = true := by
+  have h0 := cosfact_zero_of_touching dec δ hδ hdec hp
+  have hd : raDistBox s (s + Real.pi) = Real.pi := by
+    rw [raDistBox_eq]
+    unfold circDist
+    have hpi := Real.pi_pos
+    rw [add_sub_cancel_left, abs_of_pos hpi, min_eq_left (by linarith)]
+  constructor
+  · unfold inBoxRaCap
+    rw [hd, dRAhalfCap_eq, if_pos h0]
+    simp
+  · rw [hd, dRAhalf_of_zero dec δ h0]
+    have := Real.pi_pos
+    simp only [decide_eq_true_eq]; linarith
+
 theorem inBox_iff (s dec δ e x : ℝ) :
     inBox s dec δ e x = true ↔
       (circDist (e - s) < dRAhalf dec δ ∧ |x - dec| < δ ∧ -(Real.pi / 2) < x ∧ x < Real.pi / 2) := by
